@@ -109,9 +109,24 @@ func (c *Calcium) RemoveNode(ctx context.Context, nodename string) error {
 				metrics.Client.RemoveInvalidNodes(nodename)
 				return nil
 			},
-			// rollback: do nothing
-			func(_ context.Context, _ bool) error {
-				return nil
+			// rollback: the resource plugins still hold the node, so put the node metadata back
+			func(ctx context.Context, failureByCond bool) error {
+				if failureByCond {
+					return nil
+				}
+				if _, err := c.store.AddNode(ctx, &types.AddNodeOptions{
+					Nodename: node.Name,
+					Endpoint: node.Endpoint,
+					Podname:  node.Podname,
+					Ca:       node.Ca,
+					Cert:     node.Cert,
+					Key:      node.Key,
+					Labels:   node.Labels,
+					Test:     node.Test,
+				}); err != nil {
+					return err
+				}
+				return c.store.UpdateNodes(ctx, node) // bypass flag
 			},
 			c.config.GlobalTimeout)
 	})
